@@ -25,6 +25,7 @@ from rpylib.process.levyprocess import (
     SimulationFixedTimes,
     SimulationWithJumpTimes,
     SimulationMaximumStep,
+    refine_up_to_maturity,
 )
 from rpylib.process.markovchain.markovchain import MarkovChain, compute_mu_h
 from rpylib.product.payoff import PayoffDates
@@ -376,7 +377,6 @@ class MCLevyCopulaSimulationMaximumStep(
             self
         )
 
-        if jump_times.size == 0:
-            return jump_times, jump_values
-        else:
-            return self.build_finer_grid(jump_times, jump_values)
+        return refine_up_to_maturity(
+            self.build_finer_grid, self._maturity, jump_times, jump_values
+        )
